@@ -71,7 +71,8 @@ def root_lock_region_points(body, acq_ids, rel_ids):
     pts = set()
     for c in body.calls:
         if c.resolved in acq_ids and not body.is_cleanup(c.b):
-            rels = {x.point for x in body.calls if x.resolved in rel_ids}
+            from .rules_c18 import root_release_points
+            rels = root_release_points(body.facts, body, rel_ids)
             pts |= reach(body, after(body, c.point, label="ret"), avoid=rels)
     return pts
 
